@@ -898,13 +898,34 @@ class StridedInterval:
         all_resulting_intervals = []
         for s in self._ssplit():
             for t in o._ssplit():
-                card = s.udiv(t).cardinality
-                if card == 1:
-                    tmp = s.sub(s.udiv(t)).mul(t)
+                # s and t do not wrap around; a zero divisor yields no value
+                t_lb = t.lower_bound if t.lower_bound != 0 else t.stride
+                if t.upper_bound == 0:
+                    continue
+                if s.upper_bound < t_lb:
+                    # every dividend is smaller than every divisor
+                    tmp = s
+                elif t.is_integer and s.lower_bound // t_lb == s.upper_bound // t_lb:
+                    # one divisor, one quotient: x mod c = x - q * c
+                    shift = (s.lower_bound // t_lb) * t_lb
+                    tmp = StridedInterval(
+                        bits=self.bits,
+                        stride=s.stride,
+                        lower_bound=s.lower_bound - shift,
+                        upper_bound=s.upper_bound - shift,
+                    )
                 else:
-                    tmp = StridedInterval(bits=self.bits, stride=1, lower_bound=0, upper_bound=o.upper_bound - 1)
+                    # a remainder is smaller than its divisor and not larger than its dividend
+                    tmp = StridedInterval(
+                        bits=self.bits,
+                        stride=1,
+                        lower_bound=0,
+                        upper_bound=min(s.upper_bound, t.upper_bound - 1),
+                    )
                 all_resulting_intervals.append(tmp)
 
+        if not all_resulting_intervals:
+            return StridedInterval.empty(self.bits)
         return StridedInterval.least_upper_bound(*all_resulting_intervals).normalize()
 
     @normalize_types
